@@ -16,7 +16,7 @@ from ..rawsnap import file_sha, node_digests, rawsnap
 CALLS = ["snap", "lazy", "set_name", "set_flag", "set_values", "set_vertices", "set_metadata", "set_attr", "set_type",
          "create_group", "create_object", "add_data", "add_file", "add_comment", "remove_ws", "remove_parent",
          "copy_same", "copy_other", "pg_add", "pg_remove", "move", "close_open", "fetch_active", "fetch_active_closed",
-         "input_file", "monitored_copy", "path2workspace", "header", "helper_view"]
+         "input_file", "monitored_copy", "path2workspace", "header", "helper_view", "rw_detour"]
 WRITERS = {"set_name", "set_flag", "set_values", "set_vertices", "set_metadata", "set_attr", "set_type", "create_group",
            "create_object", "add_data", "add_file", "add_comment", "remove_ws", "remove_parent", "copy_same", "pg_add",
            "pg_remove", "move", "header"}
@@ -36,7 +36,9 @@ def program_strategy(draw, max_calls=25):
                                   "seed": st.lists(st.integers(-9, 9), min_size=1, max_size=5)})
     calls = draw(st.lists(call, min_size=1, max_size=max_calls))
     # a file without the optional Root link is a valid geoh5 file too (reader rebuilds the root in memory)
-    return {"build": build, "ops": calls, "drop_root": draw(st.integers(0, 3)) == 0}
+    return {"build": build, "ops": calls, "drop_root": draw(st.integers(0, 3)) == 0,
+            # a drillhole group with one hole and one depth log (concatenated storage) is added to the file
+            "with_dh": draw(st.booleans())}
 
 
 class C10(Check):
@@ -57,7 +59,8 @@ class C10(Check):
         "Non-trivial = program with >=1 call that changed the twin and >=1 lazy getter / getter sweep, on a file with "
         ">=2 entities. Distinct = program hash."
     )
-    assumptions = ["an explicit user request open(mode='r+') is not 'silent' and is not generated",
+    assumptions = ["an explicit user request open(mode='r+') is not 'silent': it is generated as a detour (writable "
+                   "session closed without edits, bytes re-baselined), after which a plain open() must be read-only again",
                    "in-memory state of the read-only workspace after a refused write is not constrained"]
 
     def strategy(self, tier):
@@ -75,6 +78,19 @@ class C10(Check):
             res.label("build-failed")
             return res
         path = world.path
+        extra_uids = {}
+        if program.get("with_dh"):
+            from geoh5py.groups import DrillholeGroup
+            from geoh5py.objects import Drillhole
+
+            with Workspace(path) as wsb:
+                grp = DrillholeGroup.create(wsb, name="ro_dh_group")
+                hole = Drillhole.create(wsb, parent=grp, name="ro_hole", collar=[0.0, 0.0, 0.0],
+                                        surveys=np.asarray([[0.0, 0.0, -90.0], [20.0, 10.0, -80.0]]))
+                log = hole.add_data({"ro_log": {"depth": np.asarray([1.0, 2.0, 3.0]), "values": np.asarray([4.0, 5.0, 6.0])}})
+                extra_uids = {str(grp.uid): "group", str(hole.uid): "object", str(log.uid): "data"}
+                del grp, hole, log
+            res.label("file:with-drillhole-group")
         # the user's own Workspace object on that file: built with the default mode, closed again
         # (created while the file is complete, so that closing it writes nothing)
         self.third = Workspace(path)
@@ -89,8 +105,8 @@ class C10(Check):
             res.label("file:no-root-link")
         twin = env.new_path("twin")
         shutil.copy(path, twin)
-        uids = [u for u in world.nodes if u != world.root]
-        kinds = dict(world.kind)
+        uids = [u for u in world.nodes if u != world.root] + list(extra_uids)
+        kinds = {**world.kind, **extra_uids}
         sha0 = file_sha(path)
         ro = tw = other = None
         try:
@@ -110,7 +126,9 @@ class C10(Check):
                 if name in ("snap", "lazy"):
                     getters += 1
                 d0 = node_digests(rawsnap(tw.geoh5)) if tw._geoh5 else None
+                self.live_change = False
                 out_tw = self.do_call(tw, call, uids, kinds, twin, writable=True)
+                tw_live_change = self.live_change
                 if not tw._geoh5:
                     tw.open()
                 d1 = node_digests(rawsnap(tw.geoh5))
@@ -123,6 +141,9 @@ class C10(Check):
                 if out_ro in ("ViewNotReadOnly", "ViewAcceptedWrite", "LeftOpen", "OpenedWritable"):
                     res.fail(f"C10/helper-not-read-only/{name}//{out_ro}", f"step {step}: {call}: {out_ro}")
                     return res
+                if name == "rw_detour" and out_ro == "ok":
+                    sha0 = file_sha(path)  # the explicit writable session may have re-saved the file
+                    res.label("explicit-writable-detour")
                 sha1 = file_sha(path)
                 if sha1 != sha0:
                     res.fail(f"C10/bytes-changed/{name}//", f"step {step}: call {call} changed the bytes of the read-only file (raised={out_ro})")
@@ -141,6 +162,11 @@ class C10(Check):
                     if ro.geoh5.mode != "r":
                         res.fail(f"C10/mode-upgraded/{name}//open", f"step {step}: open() re-opened a read-only workspace in mode {ro.geoh5.mode!r}")
                         return res
+                if tw_live_change and out_tw == "ok" and out_ro == "ok":
+                    # the assignment took effect on the writable twin (stored at once or staged for the close, as
+                    # for drillholes of a drillhole group): on the read-only workspace it has to fail
+                    res.fail(f"C10/write-call-did-not-raise/{name}//staged", f"step {step}: {call} changed the entity on the writable twin but returned normally on the read-only workspace")
+                    return res
                 if twin_changed:
                     changed_twin += 1
                     if out_ro == "ok" and name in WRITERS:
@@ -170,7 +196,12 @@ class C10(Check):
             cands = [u for u in uids if want is None or kinds.get(u) in want]
             if not cands:
                 return None
-            return ws.get_entity(uuid.UUID(cands[index % len(cands)]))[0]
+            found = ws.get_entity(uuid.UUID(cands[index % len(cands)]))[0]
+            if "Concatenat" in type(found).__name__ and name not in ("lazy", "set_name", "set_flag", "set_values", "set_metadata"):
+                # drillholes of a drillhole group: only attribute / value assignments are exercised (files, comments
+                # and metadata have no place in the concatenated storage - see DESIGN.md, observations)
+                return None
+            return found
 
         try:
             if not ws._geoh5 and name not in ("fetch_active_closed", "close_open"):
@@ -191,12 +222,15 @@ class C10(Check):
                 if e is None:
                     return "skip"
                 e.name = "ro_" + str(seed[0])
+                self.live_change = e.name == "ro_" + str(seed[0])
             elif name == "set_flag":
                 e = ent(call["who"])
                 if e is None:
                     return "skip"
                 flag = tree.FLAGS[seed[0] % len(tree.FLAGS)]
-                setattr(e, flag, not getattr(e, flag))
+                before = getattr(e, flag)
+                setattr(e, flag, not before)
+                self.live_change = getattr(e, flag) != before
             elif name == "set_values":
                 e = ent(call["who"], ("data",))
                 if e is None or not isinstance(getattr(e, "values", None), np.ndarray) or e.values.dtype.kind not in "fi":
@@ -300,6 +334,18 @@ class C10(Check):
             elif name == "close_open":
                 ws.close()
                 ws.open()
+            elif name == "rw_detour":
+                # an EXPLICIT request for a writable session (the user's right), closed again without any edit; the
+                # workspace was built with mode 'r': its next plain open() has to be read-only again
+                ws.close()
+                if seed[0] % 2:
+                    ws.open(mode="r+")
+                    ws.close()
+                else:
+                    with fetch_active_workspace(ws, mode="r+"):
+                        pass
+                    if ws._geoh5:
+                        ws.close()
             elif name == "fetch_active":
                 with fetch_active_workspace(ws, "r") as w:
                     len(w.objects)
